@@ -208,6 +208,7 @@ var _ = pr.AutoF
 // (for a table with at least one column).
 //@ func fixedTableLayout
 //@   props C13
+//@   unclaimed call-resolveOnePercentage@*-pre1 "computed lengths are px, percentages or auto: a data invariant of computed styles, not tracked through the style accessors"
 //@   requires box != nil
 //@   modifies anything
 //@   ensures[columns-fill-table] len(table.ColumnWidths) > 0 ==> table.Width.V() == sum(table.ColumnWidths, 0, len(table.ColumnWidths)) + allBorderSpacing
@@ -364,3 +365,16 @@ var _ = pr.AutoF
 //@   ensures[border-box] box.Style.GetBoxSizing() == "border-box" && W != pr.AutoF && hd > 0 ==> box.Width == pr.Max(0, W.V() - hd)
 //@   ensures[padding-box] box.Style.GetBoxSizing() == "padding-box" && W != pr.AutoF && hp > 0 ==> box.Width == pr.Max(0, W.V() - hp)
 //@   ensures[auto-stays-auto] W == pr.AutoF ==> box.Width == pr.AutoF
+
+// CSS 2.1 §17.6.1 separated borders: the first column starts one border-spacing inside the table's content
+// box and every further column starts one border-spacing after the end of the previous one (mirrored for rtl:
+// each column ends one border-spacing before the start of the previous one).
+//@ func tableLayout
+//@   props C13
+//@   modifies anything
+//@   unclaimed call-ContentBoxX@*-pre1 "the margins, borders and paddings of a table under layout are resolved numbers (resolvePercentages ran on it): not tracked through the box tree"
+//@   unclaimed call-ContentBoxY@*-pre1 "same"
+//@   unclaimed call-avoidPageBreak@*-pre1 "break values come from the validated style"
+//@   let last = table.ColumnPositions[len(table.ColumnPositions)-1]
+//@   loop 1 step[ltr-spacing] len(table.ColumnPositions) == old(len(table.ColumnPositions)) + 1 && last == old(positionX) + borderSpacingX && positionX == last + width
+//@   loop 2 step[rtl-spacing] len(table.ColumnPositions) == old(len(table.ColumnPositions)) + 1 && last + width == old(positionX) - borderSpacingX && positionX == last
